@@ -19,6 +19,9 @@ import (
 
 func init() {
 	log.SetLevel(log.FATAL)
+	if os.Getenv("VERIF_LOG") == "error" {
+		log.SetLevel(log.ERROR) // debugging aid: the server's error log goes to stdout
+	}
 	atomic.StoreUint32(&frontend.Queryable, 1)
 }
 
